@@ -16,8 +16,8 @@ tvars == <<avars, l>>
 
 TraceInit ==
   /\ l = 1
-  /\ G = EmptyG /\ Gprev = EmptyG /\ lookup = FALSE /\ caps = <<>>
-  /\ tombC = {} /\ tombN = {} /\ delivered = {} /\ eff = {} /\ pure = TRUE
+  /\ G = EmptyG /\ Gprev = EmptyG /\ lookup = FALSE /\ amode = FALSE /\ caps = <<>>
+  /\ tombC = {} /\ tombN = {} /\ delivered = {} /\ eff = {} /\ pure = TRUE /\ pend = <<>>
 
 IsEvent(e) == l <= Len(Rec) /\ Rec[l].ev = e /\ l' = l + 1
 
@@ -38,7 +38,7 @@ ProjMatches(g, m) ==
        Visible(m.ch[r.c]) = [n1 |-> r.n1, n2 |-> r.n2, cap |-> r.cap, d0 |-> PDir(r.d0), d1 |-> PDir(r.d1)]
   /\ \A i \in DOMAIN g.nodes :
        LET r == g.nodes[i] IN
-       /\ m.nd[r.n] = [ha |-> r.ha, ats |-> r.ats, ap |-> r.ap]
+       /\ m.nd[r.n] = [ha |-> r.ha, ats |-> r.ats, ap |-> r.ap, ad |-> r.ad]
        /\ SeqToSet(r.chans) = ChansOf(m, r.n)
        /\ Len(r.chans) = Cardinality(SeqToSet(r.chans))
 
@@ -46,13 +46,15 @@ TReset ==
   /\ IsEvent("reset")
   /\ G' = EmptyG /\ Gprev' = EmptyG
   /\ lookup' = Rec[l].lookup
+  /\ amode' = Rec[l].async
+  /\ pend' = <<>>
   /\ caps' = [c \in 1..Len(Rec[l].caps) |-> Rec[l].caps[c]]
   /\ tombC' = {} /\ tombN' = {} /\ delivered' = {} /\ eff' = {} /\ pure' = TRUE
 
 \* return value: an applied message must have been reported Ok, a message the property
 \* requires to be refused must have been reported as an error; otherwise not prescribed
 ResFits(r, m, o) ==
-  /\ (o # "none") => r.res = "ok"
+  /\ (o \in {"add", "replace", "set"}) => r.res = "ok"    \* "pending": not prescribed
   /\ MustErr(m) => r.res = "err"
 
 TDeliver ==
@@ -93,15 +95,31 @@ TReload ==
 TRgs ==
   /\ IsEvent("rgs")
   /\ LET r == Rec[l]
-         g2 == RgsUpds(RgsAnns(G, r.anns, r.ts), r.upds, r.ts) IN
+         g2 == RgsGraph(G, r.ts, r.anns, r.nodes, r.upds) IN
      /\ r.rt
      \* whether a snapshot application ends with a pruning pass is not prescribed (the
      \* implementation skips it for a snapshot without updates)
      /\ \E p \in (IF r.prune THEN {TRUE, FALSE} ELSE {FALSE}) :
-          Rgs(r.ts, r.anns, r.upds, p, r.t, IF p THEN Chs(g2) \ PChans(r.g) ELSE {})
+          Rgs(r.ts, r.anns, r.nodes, r.upds, p, r.t, IF p THEN Chs(g2) \ PChans(r.g) ELSE {})
      /\ ProjMatches(r.g, G')
 
-TraceNext == TReset \/ TDeliver \/ TFailC \/ TFailN \/ TPrune \/ TReload \/ TRgs
+\* the asynchronous lookup of scid c completes (ok: the UTXO exists)
+TResolve ==
+  /\ IsEvent("resolve")
+  /\ LET r == Rec[l]
+         known == r.c \in Pending
+         ca == IF known THEN pend[r.c].ca ELSE NoMsg
+         C1 == IF known THEN HeldCU(r.c, 0) \cup {NoMsg} ELSE {NoMsg}
+         C2 == IF known THEN HeldCU(r.c, 1) \cup {NoMsg} ELSE {NoMsg}
+         C3 == IF known THEN HeldNA(r.c, ca.n1) \cup {NoMsg} ELSE {NoMsg}
+         C4 == IF known THEN HeldNA(r.c, ca.n2) \cup {NoMsg} ELSE {NoMsg} IN
+     /\ r.rt
+     /\ \E o \in (IF known /\ r.ok THEN {"none", "add", "replace"} ELSE {"none"}) :
+        \E p1 \in C1, p2 \in C2, p3 \in C3, p4 \in C4 :
+          Resolve(r.c, r.ok, o, <<p1, p2, p3, p4>>)
+     /\ ProjMatches(r.g, G')
+
+TraceNext == TReset \/ TDeliver \/ TFailC \/ TFailN \/ TPrune \/ TReload \/ TRgs \/ TResolve
 
 TraceSpec == TraceInit /\ [][TraceNext]_tvars
 
